@@ -475,6 +475,8 @@ def sph_harm_l(l: int, theta: float, phi: float) -> npt.NDArray:
     Return:
         spherical harmonics (npt.NDArray)
     """
+    if l == 1:
+        return SphHarm1(theta, phi)
     if l == 2:
         return SphHarm2(theta, phi)
     if l == 3:
